@@ -112,24 +112,30 @@ theorem parseTail_marshal {σ : Schema} {O : Oracles} {m : Msg} {t : TailSpec}
         · cases hv : m.get cs!"enc_serializer" <;> simp_all [WVal.isNull]
       · rw [hpn] at a; simp [WVal.isNull] at a
     obtain ⟨ea, ek, es⟩ := henc
+    -- in every remaining case: not payload mode, and args / kwargs read back as they are
+    suffices h : payloadMode t σ.k (σ.marshal m) = false ∧
+        argsPart t σ.k (σ.marshal m) = .ok (m.get cs!"args") ∧
+        kwargsPart t σ.k (σ.marshal m) = .ok (m.get cs!"kwargs") by
+      obtain ⟨hmode, ha, hk⟩ := h
+      simp only [hmode, Bool.false_eq_true, if_false, ha, hk, tailMsg, hpn, ea, ek, es]
+      rfl
     by_cases hkw : (m.get cs!"kwargs").truthy = true
     · -- [args, kwargs]
       have hmt : marshalTail m = [m.get cs!"args", m.get cs!"kwargs"] := by simp [marshalTail, hp, hkw]
       rw [hmt] at hlen hg0 hg1
       simp only [List.getD_cons_zero, List.getD_cons_succ, List.length_cons, List.length_nil] at hlen hg0 hg1
-      have hmode : payloadMode t σ.k (σ.marshal m) = false := by
-        unfold payloadMode
-        rw [hlen]
-        have : (σ.k + 1 + (0 + 1 + 1) == σ.k + 2) = false := by simp
-        simp [this]
-      simp only [hmode, Bool.false_eq_true, if_false, hlen, hg0, hg1]
       have hkd : ∃ kvs, m.get cs!"kwargs" = .dict kvs := by
         cases hv : m.get cs!"kwargs" <;> simp_all [WVal.truthy]
       obtain ⟨kvs, hkd⟩ := hkd
       have hlt1 : σ.k + 1 + (0 + 1 + 1) > σ.k + 1 := by omega
       have hlt2 : σ.k + 1 + (0 + 1 + 1) > σ.k + 2 := by omega
-      simp only [hlt1, hlt2, if_true, hkd]
-      have hargs : checkArgs t.variant (m.get cs!"args") = .ok (m.get cs!"args") := by
+      refine ⟨?_, ?_, ?_⟩
+      · unfold payloadMode
+        rw [hlen]
+        have : (σ.k + 1 + (0 + 1 + 1) == σ.k + 2) = false := by simp
+        simp [this]
+      · unfold argsPart
+        rw [hlen, if_pos hlt1, hg0]
         cases hvar : t.variant with
         | std =>
           rcases ra with h | h
@@ -138,9 +144,9 @@ theorem parseTail_marshal {σ : Schema} {O : Oracles} {m : Msg} {t : TailSpec}
         | publish =>
           have := rpub hvar hkw
           cases hv : m.get cs!"args" <;> simp_all [WVal.isList, checkArgs]
-      rw [hargs]
-      simp only [tailMsg, hpn, ea, ek, es, hkd]
-      cases t.variant <;> rfl
+      · unfold kwargsPart
+        rw [hlen, if_pos hlt2, hg1, hkd]
+        cases t.variant <;> rfl
     · have hkn : m.get cs!"kwargs" = .null := by
         rcases rk with h | h
         · cases hv : m.get cs!"kwargs" <;> simp_all [WVal.isNull]
@@ -155,15 +161,17 @@ theorem parseTail_marshal {σ : Schema} {O : Oracles} {m : Msg} {t : TailSpec}
           · cases hv : m.get cs!"args" <;> simp_all [WVal.isNull, WVal.truthy]
           · cases hv : m.get cs!"args" <;> simp_all [WVal.isList]
         obtain ⟨xs, hal⟩ := hal
-        have hmode : payloadMode t σ.k (σ.marshal m) = false := by
-          unfold payloadMode
-          rw [hg0, hal]
-          simp
         have hlt1 : σ.k + 1 + (0 + 1) > σ.k + 1 := by omega
         have hlt2 : ¬ (σ.k + 1 + (0 + 1) > σ.k + 2) := by omega
-        simp only [hmode, Bool.false_eq_true, if_false, hlen, hg0, hlt1, hlt2, if_true, hal]
-        simp only [tailMsg, hpn, ea, ek, es, hkn, hal]
-        cases t.variant <;> rfl
+        refine ⟨?_, ?_, ?_⟩
+        · unfold payloadMode
+          rw [hg0, hal]
+          simp
+        · unfold argsPart
+          rw [hlen, if_pos hlt1, hg0, hal]
+          cases t.variant <;> rfl
+        · unfold kwargsPart
+          rw [hlen, if_neg hlt2, hkn]
       · -- nothing
         have han : m.get cs!"args" = .null := by
           rcases rak with h | h | h
@@ -173,15 +181,16 @@ theorem parseTail_marshal {σ : Schema} {O : Oracles} {m : Msg} {t : TailSpec}
         have hmt : marshalTail m = [] := by simp [marshalTail, hp, hkw, hat]
         rw [hmt] at hlen
         simp only [List.length_nil, Nat.add_zero] at hlen
-        have hmode : payloadMode t σ.k (σ.marshal m) = false := by
-          unfold payloadMode
+        have hlt1 : ¬ (σ.k + 1 > σ.k + 1) := by omega
+        have hlt2 : ¬ (σ.k + 1 > σ.k + 2) := by omega
+        refine ⟨?_, ?_, ?_⟩
+        · unfold payloadMode
           rw [hlen]
           have : (σ.k + 1 == σ.k + 2) = false := by simp
           simp [this]
-        have hlt1 : ¬ (σ.k + 1 > σ.k + 1) := by omega
-        have hlt2 : ¬ (σ.k + 1 > σ.k + 2) := by omega
-        simp only [hmode, Bool.false_eq_true, if_false, hlen, hlt1, hlt2]
-        simp only [tailMsg, hpn, ea, ek, es, hkn, han]
-        rfl
+        · unfold argsPart
+          rw [hlen, if_neg hlt1, han]
+        · unfold kwargsPart
+          rw [hlen, if_neg hlt2, hkn]
 
 end Abverif.Wamp
